@@ -293,7 +293,7 @@ def stream_budget(ctx, n):
         ctx.rng.shuffle(rules)
         g = {"S": 0, "nT": 2, "rules": rules}
         xs = [list(x) for x in M.strings(2, 3)][:15]
-        jobs.append({"g": g, "sr": "float", "queries": [{"op": "locally_normalize", "xs": xs, "kwargs": {"maxiter": ctx.rng.choice([40, 60, 100])}, "timeout": 60}]})
+        jobs.append({"g": g, "sr": "float", "queries": [{"op": "locally_normalize", "xs": xs, "kwargs": {"maxiter": ctx.rng.choice([10, 12, 14])}, "timeout": 60}]})
         metas.append((g, xs))
     res = run_jobs(jobs)
     for (g, xs), job, r in zip(metas, jobs, res):
@@ -311,7 +311,7 @@ def stream_budget(ctx, n):
             if ref is None:
                 continue
             v = dec_val(enc)
-            if not isinstance(v, (float, Fraction, int)) or abs(float(v) - ref / V[g["S"]]) > 1e-4 * max(1.0, ref / V[g["S"]]):
+            if not isinstance(v, (float, Fraction, int)) or abs(float(v) - ref / V[g["S"]]) > 2e-3 * max(1.0, ref / V[g["S"]]):
                 viol(ctx, "locally_normalize:budget", f"locally_normalize(cfg, **{kw}) gives {v} to {x}; weight {ref} / total {V[g['S']]} (the recursion at the bottom exhausts the budget; the components above it were not evaluated)",
                      {"kind": "norm", "what": "proportional", "sr": "float", "grammar": g, "kwargs": kw, "xs": x, "observed": str(v), "expected": ref / V[g["S"]]})
                 break
